@@ -17,7 +17,13 @@ INV = ['inv', 'pinv', 'eig', 'ldl', 'chol', 'sqrt', 'svd']
 def int_data(rng, nx, nu, q):
     """integer data with exactly q training pairs (q a power of two so that G, H, c are dyadic)"""
     rows = [[0] + [rng.randint(-3, 3) for _ in range(nx + nu)] for _ in range(q + 1)]
-    return np.array(rows, dtype=float)
+    X = np.array(rows, dtype=float)
+    if rng.random() < 0.6 and nx + nu >= 2:
+        # correlated features of different magnitude (dyadic factors): makes pivoting factorisations (ldl) pivot
+        j, k = rng.sample(range(nx + nu), 2)
+        X[:, 1 + k] = 2 * X[:, 1 + j] + X[:, 1 + k] / 4
+        X[:, 1 + rng.randrange(nx + nu)] *= rng.choice([0.25, 4.0, 8.0])
+    return X
 
 
 def structure_case(ctx):
@@ -30,7 +36,7 @@ def structure_case(ctx):
     Psi, Theta = Xu.T, Xs.T
     alpha = rng.choice([0.0, 0.5, 2.0])        # alpha_tikhonov already divided by q in the code's call
     H = (Psi @ Psi.T) / q + alpha * np.eye(nx + nu)
-    if np.linalg.cond(H) > 1e4:
+    if np.linalg.cond(H) > 1e6:
         return None
     G = (Theta @ Psi.T) / q
     c = np.trace(Theta @ Theta.T) / q
@@ -86,6 +92,13 @@ def oracle_fit(ctx, thorough):
     rng = ctx.rng
     nx, nu = rng.randint(1, 3), rng.randint(0, 2)
     X, kw, _, _ = lc.lin_data(rng, nx, nu, radius=rng.choice([0.7, 0.95]), noise=0.05)
+    if rng.random() < 0.5 and nx >= 2:
+        # a change of state coordinates with very different magnitudes and correlation (still a linear system)
+        T = np.eye(nx)
+        T[1, 0] = 1.8
+        T = T @ np.diag([rng.choice([0.3, 1.0, 5.0]) for _ in range(nx)])
+        X = X.copy()
+        X[:, 1:1 + nx] = X[:, 1:1 + nx] @ T.T
     Xu, Xs = pykoop.shift_episodes(X, n_inputs=nu, episode_feature=True)
     Psi, Theta = Xu[:, 1:].T, Xs[:, 1:].T
     q = Psi.shape[1]
